@@ -146,3 +146,45 @@ func hasRangeOverGlobal(fn *ssa.Function, globalSuffix string) bool {
 	}
 	return false
 }
+
+// walkBody: the code that runs once per element of a link walk — the function containing the walk itself, or a
+// callback that a walking helper invokes on every iteration.
+type walkBody struct {
+	Fn   *ssa.Function      // where the per-element code lives
+	Walk LinkWalk           // the walk (in Fn, or in the helper)
+	MC   *ssa.MakeClosure   // the callback's creation site (nil for a direct walk)
+	Call ssa.CallInstruction // the per-iteration invocation of the callback inside the helper (nil for a direct walk)
+}
+
+// walkBodies finds the link walks that fn performs: loops in fn, and loops of module helpers to which fn hands a
+// callback that the helper invokes in every iteration of its walk.
+func (p *Prog) walkBodies(fn *ssa.Function, linkFields map[string]bool) []walkBody {
+	var out []walkBody
+	for _, w := range findLinkWalks(fn, linkFields) {
+		out = append(out, walkBody{Fn: fn, Walk: w})
+	}
+	for _, b := range fn.Blocks {
+		for _, in := range b.Instrs {
+			mc, ok := in.(*ssa.MakeClosure)
+			if !ok {
+				continue
+			}
+			for _, tc := range p.callsThroughValueVia(mc, nil, 2) {
+				if tc.Via == nil {
+					continue
+				}
+				helper := tc.Call.Parent()
+				for _, w := range findLinkWalks(helper, linkFields) {
+					if !naturalLoop(w.Header)[tc.Call.Block()] {
+						continue
+					}
+					if ok, _ := everyIterationPasses(tc.Call, func(x ssa.Instruction) bool { return x == ssa.Instruction(tc.Call) }, nil); !ok {
+						continue
+					}
+					out = append(out, walkBody{Fn: mc.Fn.(*ssa.Function), Walk: w, MC: mc, Call: tc.Call})
+				}
+			}
+		}
+	}
+	return out
+}
